@@ -49,8 +49,8 @@ ASSUMPTIONS = [
     'and the full grid) are counted, not judged on the value',
     'Gaussian priors are driven on u in [0.01, 0.99] (u = 0 / 1 map to +-inf, no atmosphere)',
 ]
-_Q = {'sequence': 110, 'exact': 14}
-_T = {'sequence': 700, 'exact': 70}
+_Q = {'sequence': 100, 'exact': 14, 'reuse': 16}
+_T = {'sequence': 700, 'exact': 70, 'reuse': 120}
 BUDGET = {
     'quick': [dict(name='boundscheck', env={'NUMBA_BOUNDSCHECK': '1'}, shards=6, cases=_Q)],
     'thorough': [dict(name='boundscheck', env={'NUMBA_BOUNDSCHECK': '1'}, shards=16, cases=_T)],
@@ -64,7 +64,8 @@ REQUIRED = dict(
              'invalid:chem>1', 'invalid:inverted-nodes', 'invalid:guillot',
              'failpoint-fired:temperature', 'failpoint-fired:chemistry', 'failpoint-fired:contribution',
              'valid-after-invalid-judged', 'errors:uniform', 'errors:per-bin', 'rows:shuffled',
-             'native:linear', 'native:log', 'exact-fit:code-residual-zero', 'ndim:1', 'ndim:5'])
+             'native:linear', 'native:log', 'exact-fit:code-residual-zero', 'ndim:1', 'ndim:5',
+             'reuse:set_observed', 'reuse:settings-changed', 'reuse:fit-2-judged'])
 SAMPLERS = ['nestle', 'multinest', 'polychord']
 
 _fp = {'armed': None}
@@ -249,8 +250,7 @@ def trivial_design(decls):
             'logz': -7.5, 'logzerr': 0.2}
 
 
-def run_sampler(ctx, sampler, obs, model, decls, script, tag, rng):
-    Rr = _rec['R']
+def run_sampler(ctx, sampler, obs, model, decls, script, tag, rng, keep=None):
     kw = {}
     if sampler == 'multinest':
         kw['search_multi_modes'] = bool(rng.random() < 0.5)
@@ -260,6 +260,14 @@ def run_sampler(ctx, sampler, obs, model, decls, script, tag, rng):
     L.disable_default_fits(opt, model, obs)
     for d in decls:
         L.apply_prior(opt, d)
+    if keep is not None:
+        keep['opt'] = opt
+    return drive(ctx, opt, sampler, decls, script)
+
+
+def drive(ctx, opt, sampler, decls, script):
+    """Compile and run the (possibly re-used) optimizer; returns the recorded sampler call."""
+    Rr = _rec['R']
     Rr.reset()
     Rr.script = script
     Rr.design = trivial_design(decls)
@@ -486,7 +494,109 @@ def wl_exact(ctx, rng):
             round(spec['planet_mass'], 6))
 
 
-WORKLOADS = {'sequence': wl_sequence, 'exact': wl_exact}
+def _noisy_obs(ctx, rng, spec, layout, shuffle=None):
+    truth = L.shadow_eval(spec, [])
+    if 'rejected' in truth or not np.all(np.isfinite(truth['depth'])):
+        return None
+    mt, tot = L.bin_ref(truth['wn'], truth['depth'], layout['c'], layout['w'])
+    K = layout['K']
+    s0 = float(np.mean(mt)) * 10 ** rng.uniform(-4.0, -1.5)
+    sigma = np.full(K, s0) if rng.random() < 0.5 else s0 * rng.uniform(0.4, 2.5, K)
+    y = mt + sigma * rng.normal(0, 1, K) * float(rng.choice([0.3, 1.0, 3.0]))
+    obs, order = L.make_observation(rng, layout, y, sigma, shuffle=bool(rng.random() < 0.7) if shuffle is None else shuffle)
+    return obs, y, sigma
+
+
+def _short_script(rng, decls, obs, n=3):
+    script, metas = [], []
+    for k in range(n):
+        e, m = make_entry(rng, decls, ['interior', 'face', 'interior'][k % 3])
+        script.append(e)
+        metas.append(m)
+    script.append({'u': list(script[0]['u'])})
+    metas.append({'kind': 'interior', 'repeat_of': 0})
+    for e, m in zip(script, metas):
+        with_diag(e, m, obs)
+    return script, metas
+
+
+def wl_reuse(ctx, rng):
+    """One optimizer object used for several fits (as a script that loops over observations or settings does): after
+    the first fit it is re-pointed to another observation (other bins, other error bars) with set_observed, and/or its
+    fitted set and priors are changed, and fitted again.  Every fit is judged like a fresh one: nothing of the
+    earlier observation or settings may survive in what the sampler is handed."""
+    sampler = SAMPLERS[(ctx.case['index'] + ctx.shard) % 3]
+    tag = 'reuse%d' % ctx.case['index']
+    spec, model, decls, layout = setup_case(ctx, rng, sampler, False, tag, ndim=int(rng.integers(1, 4)))
+    if layout is None:
+        ctx.event('domain-skip:no-layout-with-width-condition')
+        return
+    wn = next(iter(spec['tables'].values()))['wn']
+    first = _noisy_obs(ctx, rng, spec, layout)
+    if first is None:
+        ctx.event('domain-skip:truth-not-a-valid-atmosphere')
+        return
+    obs, y, sigma = first
+    observe_setup(ctx, spec, decls, layout, sampler)
+    script, metas = _short_script(rng, decls, obs)
+    ctx.feature(sampler=sampler, names=[d['name'] for d in decls], priors=[d['kind'] for d in decls], workload='reuse')
+    keep = {}
+    original = {n: model.fittingParameters[n][2]() for n in model.fittingParameters}
+    call = run_sampler(ctx, sampler, obs, model, decls, script, tag, rng, keep=keep)
+    if call is None:
+        return
+    judge(ctx, sampler, spec, decls, layout, y, sigma, script, metas, call, obs)
+    opt = keep['opt']
+    steps = []
+    has_user_prior = {d['name'] for d in decls if not d['kind'].startswith('mode-')}
+    for rnd in range(int(rng.integers(1, 4))):
+        what = ['observation', 'settings', 'both'][rng.integers(0, 3)]
+        if what in ('observation', 'both'):
+            lay2 = None
+            for _ in range(6):
+                lay2 = L.draw_obs_layout(rng, wn)
+                if lay2 is not None and (lay2['K'] != layout['K'] or rng.random() < 0.3):
+                    break
+            if lay2 is None:
+                ctx.event('domain-skip:no-layout-with-width-condition')
+                return
+            nxt = _noisy_obs(ctx, rng, spec, lay2)
+            if nxt is None:
+                return
+            layout = lay2
+            obs, y, sigma = nxt
+            opt.set_observed(obs)
+            ctx.observe('reuse:set_observed', 'reuse:bins-%s' % ('same' if lay2['K'] == len(call['records']) else 'changed'))
+        if what in ('settings', 'both'):
+            cat = L.catalogue(spec, model)
+            for d in decls:
+                opt.disable_fit(d['name'])
+                # a parameter that is no longer fitted keeps the last value a sampler wrote (that is C07's "leaves
+                # every other parameter untouched"); the shadow model assumes the world's own value, so put it back
+                model[d['name']] = original[d['name']]
+            chosen = choose_parameters(rng, cat, False, int(rng.integers(1, 4)))
+            order = [n for n in model.fittingParameters if n in chosen]
+            # a prior given with set_prior stays a current setting of that parameter (there is no call that removes
+            # it) and wins over mode/bounds: a parameter that ever got one is re-declared with a user prior again
+            user = ['Uniform', 'LogUniform', 'Gaussian', 'LogGaussian']
+            decls = [L.declare_prior(rng, n, cat[n], False,
+                                     kind=user[rng.integers(0, 4)] if n in has_user_prior else None) for n in order]
+            has_user_prior.update(d['name'] for d in decls if d['kind'] in user)
+            for d in decls:
+                L.apply_prior(opt, d)
+            ctx.observe('reuse:settings-changed')
+        steps.append(what)
+        script, metas = _short_script(rng, decls, obs)
+        call = drive(ctx, opt, sampler, decls, script)
+        if call is None:
+            return
+        judge(ctx, sampler, spec, decls, layout, y, sigma, script, metas, call, obs)
+        ctx.observe('reuse:fit-%d-judged' % (rnd + 2))
+    ctx.sig('reuse', sampler, tuple(steps), tuple(d['name'] for d in decls), spec['nlayers'], layout['K'],
+            round(spec['planet_mass'], 6))
+
+
+WORKLOADS = {'sequence': wl_sequence, 'exact': wl_exact, 'reuse': wl_reuse}
 
 LEVEL_TEXT = ('Exploration by runtime monitoring at the sampler boundary: the callbacks the unmodified nestle / MultiNest / '
               'PolyChord wrappers hand to the sampler entry points are captured by recording doubles and driven, in each '
